@@ -115,13 +115,12 @@ Section RmMirrors.
           let has := rm_has e in
           let subset := rm_subset e in
           if has && negb extract then rm_list_go rest
-          else
-            let first :=
-              if has then [remove_items s extract (list_elem t) toRemove item] else [] in
-            if negb (ps_empty subset) then
-              first ++ remove_items s extract (list_elem t) subset item :: rm_list_go rest
-            else if extract then first ++ rm_list_go rest
-            else first ++ item :: rm_list_go rest
+          else if has && ps_empty subset then
+            remove_items s extract (list_elem t) toRemove item :: rm_list_go rest
+          else if negb (ps_empty subset) then
+            remove_items s extract (list_elem t) subset item :: rm_list_go rest
+          else if extract then rm_list_go rest
+          else item :: rm_list_go rest
       end.
   End ListLoop.
 
